@@ -781,3 +781,90 @@ func (m *Model) RunHasCustomCases(s *Sink, rule string) {
 		s.OK(rule, key, m.Pos(hc.Pos()), "case evaluation on an abstract registry: %d (receiver type, name) cases, including names that are built-ins of other types", cases)
 	}
 }
+
+// RunCtxComplete — R-REGISTRY (context): an evaluation context carries the registry of custom functions. Every
+// allocation of ctx.EvalCtx in the module stores its CustomFunc (and Config) field before the context leaves the
+// function that builds it; a context built without one (for a layout evaluated by an evaluator of its own, ...) makes
+// every custom function "not defined" there.
+func (m *Model) RunCtxComplete(s *Sink, rule string) {
+	ctxT := m.namedType("ctx", "EvalCtx")
+	if ctxT == nil {
+		s.Undecided(rule, "ctx.EvalCtx", "-", "the evaluation context type was not found")
+		return
+	}
+	st := ctxT.Underlying().(*types.Struct)
+	need := map[int]string{}
+	for i := 0; i < st.NumFields(); i++ {
+		switch canonFieldName(ctxT, i, st.Field(i).Name()) {
+		case "CustomFunc", "Config":
+			need[i] = st.Field(i).Name()
+		}
+	}
+	n := 0
+	for _, fn := range m.ModFns {
+		if fn.Blocks == nil || isUserPkg(fnPkgPath(fn)) {
+			continue
+		}
+		c := m.Ctx(fn)
+		for _, b := range fn.Blocks {
+			for _, in := range b.Instrs {
+				al, ok := in.(*ssa.Alloc)
+				if !ok {
+					continue
+				}
+				pn := ptrNamed(al.Type())
+				if pn == nil || !types.Identical(pn, ctxT) {
+					continue
+				}
+				n++
+				stores := map[int][]ssa.Instruction{}
+				var escapes []ssa.Instruction
+				for _, r := range *al.Referrers() {
+					if fa, isFA := r.(*ssa.FieldAddr); isFA && fa.X == ssa.Value(al) {
+						for _, rr := range *fa.Referrers() {
+							if sto, isSt := rr.(*ssa.Store); isSt && sto.Addr == ssa.Value(fa) {
+								if k, isK := sto.Val.(*ssa.Const); isK && k.IsNil() {
+									continue
+								}
+								stores[fa.Field] = append(stores[fa.Field], sto)
+							}
+						}
+						continue
+					}
+					if _, isDbg := r.(*ssa.DebugRef); isDbg {
+						continue
+					}
+					escapes = append(escapes, r)
+				}
+				var fields []int
+				for f := range need {
+					fields = append(fields, f)
+				}
+				sort.Ints(fields)
+				for _, f := range fields {
+					key := fmt.Sprintf("%s|a context built here carries %s", fnKey(fn), need[f])
+					missing := ""
+					for _, esc := range escapes {
+						covered := false
+						for _, sto := range stores[f] {
+							if c.instrDominates(sto, esc) {
+								covered = true
+							}
+						}
+						if !covered && missing == "" {
+							missing = m.InstrPos(esc)
+						}
+					}
+					if missing == "" {
+						s.OK(rule, key, m.InstrPos(al), "stored before the context leaves the function")
+					} else {
+						s.Violation(rule, key, m.InstrPos(al), "%s builds an evaluation context that leaves it (at %s) without its %s: an evaluator given this context finds no custom functions (every call of one fails with \"function ... doesn't exist\") resp. no configuration", fnKey(fn), missing, need[f])
+					}
+				}
+			}
+		}
+	}
+	if n == 0 {
+		s.Undecided(rule, "ctx.EvalCtx|constructions", "-", "no construction of an evaluation context found")
+	}
+}
